@@ -23,6 +23,24 @@ CLAIMED = {
              note=S_NOTE + 'bounds: services, connections, polls and Pending/Err budgets as in the evidence', ref='§5 C07'),
  'C08': dict(engine='mirsym', tech=S_TECH, text='worker death at any point (receiver dropped; outstanding guards dropped later one by one = late notifications), replacement handle arrival, in every order against the real accept loop: no panic, no spin, one fault report per dead worker, dispatching connection re-routed, replacement rejoins the rotation',
              note=S_NOTE + 'NOT covered: ServerInner::handle_cmd(WorkerFaulted) (starts threads); how a worker thread dies; bounds as in the evidence', ref='§5 C08'),
+ 'C09': dict(engine='mirsym', tech=S_TECH, text='the real <SystemController as Future>::poll and System::stop_with_code from the MIR of the actix-rt mount crate: every sequence of Register/Deregister/Exit commands (symbolic i32 exit codes, one or two Exits) interleaved with polls: first exit code wins and is delivered once, exactly the arbiters registered at that moment receive Stop',
+             note='PARTIAL. trusted: mirsym + callee models of tokio mpsc/oneshot and HashMap (validated per run against the mount crate compiled natively with the REAL tokio). "From any thread" = position in the linearizable command channel. NOT covered: Arbiter::join returning, busy arbiters reaching their Stop (tokio scheduling), thread-locals, run()\'s io::Error mapping', ref='§5 C09'),
+ 'C10': dict(engine='mirsym', tech=S_TECH, text='the real <ArbiterRunner as Future>::poll and ArbiterHandle::{spawn, spawn_fn, stop, clone} from the MIR of the actix-rt mount crate: every command sequence through the owner handle and a clone: tasks start in send order, at most once, nothing sent after stop starts, spawn is false exactly when the loop is gone, the loop ends exactly on stop or when all handles are gone',
+             note='PARTIAL. trusted as for C09 (native validation runs the real tokio LocalSet). NOT covered: "on the arbiter\'s own thread", Arbiter::current()/System::current(), join(), block_on\'s return value, panicking tasks', ref='§5 C10'),
+ 'C11': dict(engine='kani', tech=K_TECH, text='real actix-service combinators over scripted leaves with symbolic scripts (Pending counts, Ok/Err, payloads, mapper constants, request, config): output equals the reference composition; second stage iff first succeeded; factories build each inner service once with the supplied config and fail with the (temporally) first init error',
+             note='one harness per concrete tree: 13 service trees and 8 factory trees of depth <= 2 (hand-enumerated, listed in the evidence); deeper trees and `then` are outside', ref='§5 C11'),
+ 'C12': dict(engine='kani', tech=K_TECH, text='readiness of combined services (ready only if all inner ready; inner error surfaces, mapped; Pending => every still-pending inner service polled with the current waker) and the polling contract of combinator futures (fresh waker identity per poll; no poll after completion; stages at most once; pending only while an inner future is pending)',
+             note='same trees as C11 (service trees) plus 7 readiness trees', ref='§5 C12'),
+ 'C13': dict(engine='kani', tech=K_TECH, text='one Framed::poll_next per harness from an arbitrary pre-state satisfying the representation invariant, symbolic buffered bytes, symbolic first transport answer; the invariant is re-established, so by induction over polls decoding is independent of the arrival pattern',
+             note='trusted: model crates bytes/memchr/tokio-io/tokio-util (DESIGN.md §3.2); the induction step on paper; bounds K + C <= 7 bytes; real BytesMut memory management and the 1 KiB / 8 KiB marks are outside', ref='§5 C13'),
+ 'C14': dict(engine='kani', tech=K_TECH, text='one sink operation (start_send + poll_flush / poll_close, poll_ready) per harness from a pre-state with symbolic buffered bytes against a transport whose every answer is symbolic: conservation of bytes, success only when drained, WriteZero, shutdown after the last write',
+             note='trusted: model crates (DESIGN.md §3.2); bounds: <= 3 poll_write per harness, 2-byte items, K <= 3; the 8 KiB high-water mark is beyond the 8-byte model buffer', ref='§5 C14'),
+ 'C15': dict(engine='kani', tech=K_TECH, text='LinesCodec decode / decode_eof / encode / round trip for every byte string of the stated lengths (all 256 byte values), against an independent reference splitter and UTF-8 validator',
+             note='trusted: model bytes and memchr; bounds N <= 3 quick / 5 thorough', ref='§5 C15'),
+ 'C17': dict(engine='kani', tech=K_TECH, text='real actix_utils::counter::Counter and local_waker::LocalWaker under symbolic operation sequences (acquire, drop any guard, query availability with waker j, total, via either clone) with symbolic capacity: available <=> live < capacity, total == live, the most recently refused waker is woken when a drop takes the count from capacity to capacity-1; LocalWaker register/wake/take against a one-slot reference, exact wake counts',
+             note='bounds: 6 ops quick / 9 thorough for the counter, 6 for LocalWaker; capacity 0..3; no models', ref='§5 C17'),
+ 'C20': dict(engine='kani', tech=K_TECH, text='real bytestring on the real bytes crate: every fallible constructor accepts exactly the byte strings str::from_utf8 (and an independent validator) accepts, for every byte string of the stated lengths; split_at panics exactly off char boundaries; slice_ref, Eq, Ord, Hash, Deref agree with str',
+             note='no models; bounds: lengths 0..4 quick / 0..5 thorough, one harness per concrete length', ref='§5 C20'),
  'C16': dict(engine='mirsym', tech=S_TECH, text='every operation sequence on the real local-channel (MIR of mpsc.rs + local-waker) up to the depth bound with symbolic payloads and symbolic acting sender, reference queue model stepped alongside',
              note='trusted: mirsym executor and its callee models of Rc/RefCell/VecDeque/Cell/Waker (validated per run against the native build on random concrete sequences); bounds: sequence length 6 (quick) / 8 (thorough), <=3 senders', ref='§5 C16'),
 }
